@@ -12,9 +12,26 @@ def create_build_finer_grid_fun(epsilon: float, maturity: float):
         return jump_times, fines_states_values, coarse_states_values
 
     def _build_finer_grid(self, jump_times, fines_states_values, coarse_states_values):
+        # the maturity closes the time grid: it is added as a last point (which repeats the last values) so that the
+        # stretch after the last jump is refined as well, and it is removed again from the output
+        def with_last_value(values):
+            last_value = (
+                values[..., -1:]
+                if jump_times.size
+                else np.zeros(np.shape(values)[:-1] + (1,))
+            )
+            return np.concatenate((values, last_value), axis=-1)
+
+        fines_states_values = with_last_value(fines_states_values)
+        coarse_states_values = with_last_value(coarse_states_values)
+        jump_times = np.append(jump_times, maturity)
         dts = np.concatenate(([jump_times[0]], np.diff(jump_times)))
         if not any(dts > epsilon):
-            return jump_times, fines_states_values, coarse_states_values
+            return (
+                jump_times[:-1],
+                fines_states_values[..., :-1],
+                coarse_states_values[..., :-1],
+            )
         else:
             positions = np.nonzero(dts > epsilon)[0]
             aug_fine_js = fines_states_values
@@ -38,6 +55,6 @@ def create_build_finer_grid_fun(epsilon: float, maturity: float):
                 positions = np.nonzero(aug_dts > epsilon)[0]
             aug_jump_times = np.cumsum(aug_dts)
 
-            return aug_jump_times, aug_fine_js, aug_coarse_js
+            return aug_jump_times[:-1], aug_fine_js[..., :-1], aug_coarse_js[..., :-1]
 
     return _build_finer_grid_default if epsilon >= maturity else _build_finer_grid
